@@ -579,7 +579,7 @@ def oracleC03 (p : Parsed) (fs : List (String × String)) (clean : Bool := false
         | some z =>
           clean && (cb != "-") && (cb.splitOn ",").any fun t => match t.splitOn ":" with
             | ["F1", h] => match fromHex h with
-              | some b => !b.isEmpty && (fakeWorld.decompress z b).isNone
+              | some b => (fakeWorld.decompress z b).isNone
               | none => false
             | _ => false
         | none => false
@@ -830,7 +830,7 @@ def oracleC02 (p : Parsed) (fs : List (String × String)) (clean : Bool := false
               -- from a well-behaved client: what is flagged compressed must inflate under the declared compression
               let lying := match comp with
                 | some z => clean && frames.any fun f => f.1 == 1 && match f.2 with
-                    | .raw b => !b.isEmpty && (fakeWorld.decompress z b).isNone
+                    | .raw b => (fakeWorld.decompress z b).isNone   -- (an empty payload is not compressed data either)
                     | .tok _ => false
                 | none => false
               if lying then some "a message is flagged compressed for the backend but its bytes are not compressed" else none
